@@ -41,6 +41,12 @@ Scripts_MBT_small == {Nop, CompleteSc, RemoveSc("a"), AddSc(<<"n", 1>>, 1)}
 Win_two == {AlwaysOn, [start |-> 1, end |-> 2, freq |-> 2]}
 Scripts_MBT   == {Nop, CompleteSc, RemoveSc("a"), RemoveSc("b"), AddSc(<<"n", 1>>, 1), AddSc(<<"n", 1>>, 0)}
 
+\* liveness is checked without a state constraint (a constraint can hide non-progress cycles): requests are only issued while
+\* the clock can still absorb them
+Scripts_Live == {Nop, CompleteSc, RemoveSc("a"), RemoveSc("b"), AddSc(<<"n", 1>>, 1), AddSc(<<"b", 2>>, 0)}
+LiveNext == Next /\ ((pending = 0 /\ pending' > 0) => clock + pending' <= 2)
+LiveSpec == Init /\ [][LiveNext]_vars /\ WF_vars(StepActs)
+LiveSpecUnfair == Init /\ [][LiveNext]_vars          \* negative control: without fairness a request may be left pending for ever
 ClockAtMost1 == clock <= 1
 ClockAtMost2 == clock <= 2
 ClockAtMost3 == clock <= 3
